@@ -248,6 +248,7 @@ class Lift:
         self.closures = {}     # ordinal -> (header, [ensures lines])
         self.before = []       # (anchor, occurrence, [lines])
         self.after = []
+        self.at_end = []       # ghost lines spliced before the closing brace of the body (functions without a tail expression)
         self.rewrites = []     # (count, from, to)
         self.sig_rewrites = []
         self.body_only = False
@@ -611,6 +612,9 @@ def lift_item(src, lift):
         for anchor, occ, lines in lift.after:
             _, last = _line_anchor(src, bo, hi, anchor, occ, what)
             inserts.setdefault(last + 1, []).append('\n' + '\n'.join(lines) + '\n')
+            report['GHOST'] = report.get('GHOST', 0) + 1
+        if getattr(lift, 'at_end', None):
+            inserts.setdefault(hi, []).append('\n' + '\n'.join(lift.at_end) + '\n')
             report['GHOST'] = report.get('GHOST', 0) + 1
         replaced = _find_rewrites(src, bo, hi, lift.rewrites, report, what) if lift.rewrites else {}
         if lift.sig_rewrites:
